@@ -412,10 +412,13 @@ Definition run_psess (args : list val) : val :=
 Fixpoint dmn_steps (s : dstate) (steps : list val) : list val :=
   match steps with
   | [] => []
-  | VL (VS kind :: nums :: _) :: rest =>
+  | VL (VS kind :: nums :: more) :: rest =>
+      let data := match more with VH h :: _ => hex_bytes h | _ => [] end in
+      let rl := match more with _ :: VL l :: _ => fold_right (fun v acc => match val_NL v with Some x => x :: acc | None => acc end) [] l
+                | _ => [] end in
       match val_NL nums with
       | Some a =>
-          let o := d_step s kind a in
+          let o := d_step s kind a data rl in
           VL [do_res o; VL (do_events o)] :: dmn_steps (do_state o) rest
       | None => [verror "step"]
       end
